@@ -132,6 +132,38 @@ YearPieces(tab, lo, hi, cur, first) ==
   IN Walk(tab, {tab.rows[k].start : k \in {j \in 1..Len(tab.rows) : Lt(lo, tab.rows[j].start) /\ Lt(tab.rows[j].start, hi)}}, v0, out0)
 
 ----------------------------------------------------------------------------
+\* BasicZoneProcessor::getOffsetDateTime(ldt): a local date-time w (<<day, second of day>> on the local clock).
+\*   init(local date) must succeed; offset0 = offset at w read as an instant; offset1 = offset at w - offset0;
+\*   offset2 = offset at w - offset1; if offset1 = offset2 the result is w - offset1 with offset1, otherwise the later of
+\*   the two instants with the offset found *at* it.  Each getUtcOffset() re-selects the table by the UTC date of its
+\*   argument (the year before on January 1).  tabOf: year -> table.
+Err == <<"err">>
+ServeYear(t) == LET c == Civil(t[1]) IN IF c[2] = 1 /\ c[3] = 1 THEN c[1] - 1 ELSE c[1]
+NoOff == -1000000
+OffAtT(tabOf, t) == LET tb == tabOf[ServeYear(t)] IN
+                    IF ~tb.filled \/ tb.rows = <<>> THEN NoOff
+                    ELSE LET S == {k \in 1..Len(tb.rows) : Le(tb.rows[k].start, t)}
+                         IN 60 * tb.rows[IF S = {} THEN 1 ELSE CHOOSE k \in S : \A j \in S : j <= k].off
+ResolveB(tabOf, w) ==
+  IF ~tabOf[ServeYear(w)].filled THEN Err
+  ELSE LET o0 == OffAtT(tabOf, w) IN
+       IF o0 = NoOff THEN Err
+       ELSE LET e1 == AddS(w, 0 - o0)
+                o1 == OffAtT(tabOf, e1)
+            IN IF o1 = NoOff THEN Err
+               ELSE LET e2 == AddS(w, 0 - o1)
+                        o2 == OffAtT(tabOf, e2)
+                    IN IF o2 = NoOff THEN Err
+                       ELSE IF o1 = o2 THEN <<0 - o1, o1>>
+                       ELSE IF Lt(e2, e1) THEN <<0 - o0, o1>> ELSE <<0 - o1, o2>>
+\* wall times at which ResolveB can change its value: an instant at which a table row starts or the serving table
+\* changes, shifted by any total offset the tables hold (or by none)
+BreaksB(tabOf, years) ==
+  LET B0 == UNION {{tabOf[yy].rows[k].start : k \in 1..Len(tabOf[yy].rows)} \cup {<<Days(yy, 1, 1), 0>>, <<Days(yy, 1, 2), 0>>} : yy \in years}
+      O == {0} \cup UNION {{60 * tabOf[yy].rows[k].off : k \in 1..Len(tabOf[yy].rows)} : yy \in years}
+  IN {AddS(b, o) : b \in B0, o \in O}
+
+----------------------------------------------------------------------------
 \* One behaviour per zone: the tables of the years Y0-1 .. YLast are built one after the other.
 \* init() of an instant uses the UTC year of the instant, and the year before on January 1.
 VARIABLES z, y, tab, pieces, cur
